@@ -1042,3 +1042,53 @@ pub(crate) fn base_of(st: SSt) -> Bc { let SSt { b, g: _, ent, key } = st; std::
 impl In {
     pub(crate) fn verif_recv_write(&self) -> Option<WriteOp<u8, Val>> { self.write_op_ch.try_recv().ok() }
 }
+
+// ================================================================================================
+// Sync admission DECISION for all weights: Inner::admit is read-only (the surrounding handle_upsert
+// admission path with its victim removal is the part that stays out of reach).
+// ================================================================================================
+fn s_admit_lemma(n: usize) {
+    let st = sbuild(&sc(n, Some(1000), false, W1, false, false, false, 1));
+    let inner = &*st.b.inner;
+    let wsym: [u32; MAXN] = kani::any();
+    let mut i = 0;
+    while i < n { st.ent[i].as_ref().unwrap().entry_info().set_policy_weight(wsym[i]); i += 1; }
+    let cw: u32 = kani::any();
+    let ch: u8 = kani::any();
+    kani::assume((ch as usize) < MAXN);
+    let deqs = inner.deques.lock().expect("lock poisoned");
+    let freq = inner.frequency_sketch.read().expect("lock poisoned");
+    let mut cand = EntrySizeAndFrequency::new(cw);
+    cand.add_frequency(&freq, IdH::h(ch));
+    let fc = freq.frequency(IdH::h(ch)) as u32;
+    let mut f = [0u32; MAXN];
+    let mut i = 0;
+    while i < n { f[i] = freq.frequency(IdH::h(i as u8)) as u32; i += 1; }
+    let r = In::admit(&cand, &inner.cache, &deqs, &freq);
+    let mut pw = 0u64; let mut pf = 0u32; let mut nv = 0usize;
+    let mut i = 0;
+    while i < n { if pw < cw as u64 { pw += wsym[i] as u64; pf += f[i]; nv = i + 1; } i += 1; }
+    let want = pw >= cw as u64 && fc > pf;
+    let (nodes, _, _) = dq::walk::<KeyHashDate<u8>, { MAXN }>(&deqs.probation);
+    match r {
+        AdmissionResult::Admitted { victim_nodes, skipped_nodes } => {
+            assert!(want, "C13: sync admit() admitted although no covering LRU prefix exists or the candidate is not strictly more popular");
+            assert!(victim_nodes.len() == nv && skipped_nodes.is_empty(), "C12,C13: sync victims are not the shortest sufficient LRU prefix");
+            let mut i = 0;
+            while i < MAXN { if i < nv { assert!(Some(victim_nodes[i]) == nodes[i], "C12: sync victims are not the least recently used residents in LRU order"); } i += 1; }
+            std::mem::forget(victim_nodes); std::mem::forget(skipped_nodes);
+        }
+        AdmissionResult::Rejected { skipped_nodes } => {
+            assert!(!want, "C13: sync admit() rejected although the covering LRU prefix is strictly less popular");
+            assert!(skipped_nodes.is_empty(), "C13: nothing to skip when every node has its map entry");
+            std::mem::forget(skipped_nodes);
+        }
+    }
+    kani::cover!(want && nv == n && n > 0, "admitted over all residents");
+    kani::cover!(!want && pw >= cw as u64, "rejected on popularity");
+    kani::cover!(!want && pw < cw as u64, "rejected: no covering prefix");
+    drop(freq); drop(deqs);
+    std::mem::forget(st);
+}
+sh!(s_admit_lemma_n1, s_admit_lemma(1));
+sh!(s_admit_lemma_n2, s_admit_lemma(2));
